@@ -284,8 +284,35 @@ def gen_par(ctx, k, P):
     for i in range(n):
         if agg[i] < 0: B[i] = Fraction(rng.randint(-3, 3))
     trip = rand_A_triples(rng, n, False)
+    if P > 1 and rng.random() < 0.35:
+        agg, B, trip = force_dropped_column(rng, n, P, first, roots, agg, B, trip)
     omega = rng.choice(OMEGAS); ks = rng.choice([1, 1, 1, 2, 2, 0])
     return dict(kind="psa", n=n, P=P, first=first, agg=agg, B=B, trip=trip, omega=omega, k=ks, mode=mode, roots=roots)
+
+
+def force_dropped_column(rng, n, P, first, roots, agg, B, trip):
+    """Regression class for the off_proc_column_map compaction in ParCSRMatrix::subtract: a rank whose only vertex of an
+       off-process aggregate c has B = 0 (explicit zero in T) and no coupling to c, while a larger off-process column k
+       stays in use -> column c disappears from the rank's P and k must keep its global id."""
+    agg, B = list(agg), list(B)
+    for r in rng.sample(range(P), P):
+        lo, hi = first[r], first[r + 1]
+        off = [c for c in roots if not lo <= c < hi]
+        loc = [i for i in range(lo, hi) if i not in roots]
+        if len(off) < 2 or len(loc) < 2: continue
+        c, k = sorted(rng.sample(off, 2))
+        i, j = rng.sample(loc, 2)
+        for l in range(lo, hi):
+            if agg[l] == c: agg[l] = k
+        agg[i], agg[j] = c, k
+        B[i] = Fraction(0)
+        if B[j] == 0: B[j] = Fraction(rng.choice([1, -2, 3]))
+        if B[c] == 0: B[c] = Fraction(rng.choice([1, 2, -3]))
+        trip = [(a, b, v) for (a, b, v) in trip if not (lo <= a < hi and agg[b] == c)]
+        break
+    for rt in roots:          # keep the restriction to every aggregate non-zero
+        if all(B[l] == 0 for l in range(n) if agg[l] == rt): B[rt] = Fraction(rng.choice([1, 2, -3]))
+    return agg, B, trip
 
 
 def par_line(c, cid, tap):
@@ -350,6 +377,14 @@ def judge_par(ctx, c, impl, model):
     if any(a < 0 for a in agg): ctx.count("par_isolated")
     if any(a >= 0 and own(a) != own(i) for i, a in enumerate(agg)): ctx.count("par_cross_rank_aggregate")
     if not c["roots"]: ctx.count("par_no_aggregates")
+    for r in range(P):      # an off-process column of T that the rank's smoothed rows do not use, below one they do use
+        lo, hi = first[r], first[r + 1]
+        tcols = set(agg[i] for i in range(lo, hi) if agg[i] >= 0 and not lo <= agg[i] < hi)
+        if c["k"] >= 1 and len(tcols) >= 2:
+            Tex = {(i, a): B[i] for i, a in enumerate(agg) if a >= 0 and B[i] != 0}
+            used = set(j for (i, j) in smooth_exact(n, c["trip"], Tex, None, c["omega"], 1) if lo <= i < hi)
+            if any(d not in used and any(k2 in used and k2 > d for k2 in tcols) for d in tcols):
+                ctx.count("par_dropped_offproc_column"); break
     if n > 1 and c["trip"]: ctx.nontrivial.add(line.split(" ", 1)[1].rsplit(" ", 1)[0])
     ctx.sample(line)
     sig = "par" + (":tap" if c["tap"] else "")
